@@ -226,10 +226,21 @@ func (s *server) serve() {
 
 // ---- argument strings -----------------------------------------------------------
 
-var strClasses = []string{"ascii", "space", "quote-backslash", "nul", "cr", "lf", "crlf-cmd", "utf8", "badutf8", "latin1", "empty", "brace", "long-ascii", "long-utf8", "exact4096", "over4096"}
+var strClasses = []string{"utf8-then-crlf", "utf8-then-nul", "latin1-then-lf", "crlf-then-utf8", "mix", "ascii", "space", "quote-backslash", "nul", "cr", "lf", "crlf-cmd", "utf8", "badutf8", "latin1", "empty", "brace", "long-ascii", "long-utf8", "exact4096", "over4096"}
 
 func genStr(rng *rand.Rand, class string) string {
 	switch class {
+	case "utf8-then-crlf":
+		return "andré\r\nZ9 DELETE INBOX"
+	case "utf8-then-nul":
+		return "é\x00tail"
+	case "latin1-then-lf":
+		return "caf\xe9\nmore"
+	case "crlf-then-utf8":
+		return "a\r\nb é"
+	case "mix":
+		base := []string{"ascii", "space", "quote-backslash", "nul", "cr", "lf", "crlf-cmd", "utf8", "badutf8", "latin1", "brace"}
+		return genStr(rng, base[rng.Intn(len(base))]) + genStr(rng, base[rng.Intn(len(base))]) + genStr(rng, base[rng.Intn(len(base))])
 	case "ascii":
 		return "plainAtom" + fmt.Sprint(rng.Intn(100))
 	case "space":
@@ -570,7 +581,7 @@ func body(w *hx.W) {
 		}
 		runCase(w, rng, cfg)
 		if i < len(cfgs) && w.Shard == 0 {
-			w.Sample(map[string]interface{}{"caps": cfg.caps, "kind": "dialogue of LOGIN, optional ENABLE, SELECT and 2..6 commands with string arguments from 16 classes / APPEND sizes around 4096, random reactions to synchronising literals"})
+			w.Sample(map[string]interface{}{"caps": cfg.caps, "kind": "dialogue of LOGIN, optional ENABLE, SELECT and 2..6 commands with string arguments from 21 classes (incl. 8-bit bytes followed by CR/LF/NUL and random mixtures) / APPEND sizes around 4096, random reactions to synchronising literals"})
 		}
 	}
 }
@@ -579,7 +590,7 @@ func main() {
 	hx.Main(hx.Spec{
 		ID:    "C18",
 		Level: "exploration",
-		Rule: "dialogues against a scripted server for 7 capability sets (bare IMAP4rev1, LITERAL-, LITERAL+, IMAP4rev2, rev1+rev2, UTF8=ACCEPT enabled or not, with and without LITERAL-) x commands with string arguments from 16 classes (NUL, CR, LF, CRLF+command text, quotes, 8-bit valid / invalid UTF-8, latin-1, lengths around 4096) x APPEND sizes {0,1,4095,4096,4097,10^5} x SEARCH with non-ASCII text x server reactions to synchronising literals {'+' at once, '+' after unrelated untagged data once the client is parked, tagged NO, tagged BAD}; distinct = distinct (capability set, dialogue)",
+		Rule: "dialogues against a scripted server for 7 capability sets (bare IMAP4rev1, LITERAL-, LITERAL+, IMAP4rev2, rev1+rev2, UTF8=ACCEPT enabled or not, with and without LITERAL-) x commands with string arguments from 21 classes (incl. 8-bit bytes followed by CR/LF/NUL and random mixtures) (NUL, CR, LF, CRLF+command text, quotes, 8-bit valid / invalid UTF-8, latin-1, lengths around 4096) x APPEND sizes {0,1,4095,4096,4097,10^5} x SEARCH with non-ASCII text x server reactions to synchronising literals {'+' at once, '+' after unrelated untagged data once the client is parked, tagged NO, tagged BAD}; distinct = distinct (capability set, dialogue)",
 		Assumptions: []string{
 			"the advertised set is what the scripted server actually sent (greeting and LOGIN codes are identical within a dialogue); UTF8=ACCEPT counts from the command after the ENABLED response",
 			"before every client command the harness waits until the client has processed everything the server sent",
